@@ -188,7 +188,7 @@ def run(ctx):
         if bad:
             ctx.violation(f"{bad[:300]}", {"mode": "c15", "case": c, "text": t, "impl": o, "witness": c})
     # ---- WHERE a deserialization error is located: model (Model/DeLocated.lean) = the three routes, plus direct oracles
-    extra_props(ctx, ["C15Located"])
+    extra_props(ctx, ["C15Located", "C15LocatedMore"])
     lstats, ldis, lbroken = c15loc.run_located(ctx, tvh)
     for name, fails in lbroken.items():
         for l, d in fails[:5]:
